@@ -340,7 +340,8 @@ class World:
                     f'{[(b["id"], b["state"]) for b in on_target]}',
                 ))
             elif mine:
-                stale = ci_target != target
+                # the CI cannot be unaware of a target move that is its own merge
+                stale = ci_target != target and self.last_target_change != 'merge'
                 tested = sorted({(b['attributes'].get('target_sha'), b['state']) for b in mine})
                 found.append((
                     f'target-not-current/{cause(stale, ("push", 0))}',
